@@ -965,7 +965,11 @@ func (e *engine) step(i int, op Op) (stop bool, err error) {
 		w2 = nil
 	} else {
 		// (A bytes-into-string panic happens where a rejection would: the model runs with bytes rejected.)
-		nh, merr = p.model(e.w, &mctx{w: e.w, lenient: ok})
+		nh, merr = p.model(e.w, &mctx{w: e.w, lenient: ok, either: func(what string, accepted bool) {
+			if pan == "" {
+				e.classes[fmt.Sprintf("undocumented:%s:accepted=%v", what, accepted)] = true
+			}
+		}})
 		if w2 != nil {
 			p.model(w2, &mctx{w: w2, lenient: ok, ideal: true})
 		}
